@@ -90,7 +90,7 @@ cdef class QueryHandler:
     cdef cython.dict _answer_question(self, DNSQuestion question, unsigned int strategy_type, list types, list services, DNSRRSet known_answers)
 
     @cython.locals(question=DNSQuestion, known_answers_by_name=cython.dict, record=DNSRecord)
-    cpdef void async_remember_query(self, DNSIncoming msg, double now)
+    cpdef void async_remember_query(self, DNSIncoming msg, double now, bint again=*)
 
     @cython.locals(
         msg=DNSIncoming,
